@@ -35,7 +35,7 @@ ASSUMPTIONS = [
     "a directive sentinel is '!' [letters] '$' as the first non-blank characters of a line",
     "line classification has no system oracle (gfortran -E does not report it); conditional selection is cross-checked with ref_cpp",
 ]
-BOUNDS = {"quick": "lines/: 15 cover prefixes x 8 suffixes x 1 symbolic character; cond/: skeletons <= 4 nodes x 2 renderings x 5x3 -D classes",
+BOUNDS = {"quick": "lines/: 18 cover prefixes x 10 suffixes x 1 symbolic character; cond/: skeletons <= 4 nodes x 2 renderings x 5x3 -D classes",
           "thorough": "lines/: 2 symbolic characters; cond/: <= 5 nodes x 4 renderings"}
 EXPLANATION = ("As C05, for free-form Fortran: each obligation parses prefix + m symbolic characters + suffix with the real FileParser on a "
                ".f90 file and compares counted lines, '#' directive lines and total_sloc with the reference scanner over all paths. "
@@ -49,10 +49,12 @@ COVER = [
     ("start", ""), ("code", "a"), ("comment", "a !c"), ("sq", "a 'k"), ("dq", 'a "k'), ("amp", "a &"), ("cont-bol", "a &\n"),
     ("cont-sq", "a 'k&\n"), ("bang", "!"), ("bang-letters", "!ab"), ("directive", "#d"), ("cont-comment", "a &\n!c\n"),
     ("cont-sq-amp", "a 'k&\n  &"), ("blank", "  "), ("cont-blank", "a &\n\n"),
+    ("sq-amp", "a 'k&"), ("dq-amp", 'a "k &'), ("sq-amp-blank", "a 'k& "),
 ]
 SUFFIX = [
     ("nl", "\nb\n"), ("close-sq", "'\nb\n"), ("close-dq", '"\nb\n'), ("amp", "&\nc\n"), ("dollar", "$x\nb\n"), ("comment", " !z\nb\n"),
     ("hash", "\n#y\nz\n"), ("amp-comment", "&\n!m\n\n c\n"),
+    ("bang-close-sq", "!z'\n!c\nd\n"), ("bang-close-dq", '!z"\n!c\nd\n'),
 ]
 
 
@@ -266,7 +268,7 @@ def mc_coverage(results):
 
 
 CLAIM = ("Bounded model checking of the product of CBI's Fortran cleaner (behind the directives-only C pass) and a reference scanner: from "
-         "15 reference states every 1/2-character continuation over the alphabet, observed through 8 suffixes, gives the reference's "
+         "18 reference states every 1/2-character continuation over the alphabet, observed through 10 suffixes, gives the reference's "
          "counted lines; C preprocessor conditionals in .F90 files select lines exactly as the reference preprocessor does for all -D classes.")
 LEVEL_NOTE = ("Trusted: CrossHair/z3, vp/refs/ref_flex.py (no system oracle for Fortran line classification), vp/refs/ref_cpp.py. Outside: "
               "fixed-form Fortran (get_file_source has no branch for it), Hollerith/BOZ forms, ';'-separated statements, backslashes.")
